@@ -12,18 +12,20 @@
    theorems W*_progress), nesting stays below MaxDepth (C14), a container that completes with a
    claimed length n >= 0 has exactly n children, only the LAST child of a container may be
    incomplete (an error ends the call), a container pre-sizes its value with
-   decInferLen(claimed, max(1024, MaxInitLen), unit) elements and grows by appending. *)
+   decInferLen(claimed, max(1024, MaxInitLen), unit) elements, each costing its size plus a
+   bookkeeping overhead OV, and grows by appending. *)
 From Coq Require Import List ZArith Lia Bool.
 From Verif Require Import Gen.Consts.
 Import ListNotations.
 Open Scope Z_scope.
 
-(* decInferLen(clen int, maxlen, unit uint) uint *)
+(* decInferLen(clen int, maxlen, unit uint) uint — after the F02-3 repair: zero-size elements
+   (unit = 0) are capped like any other (before it the claimed length came back as is, and a map
+   of zero-size entries was made with that many buckets) *)
 Definition decInferLen (clen maxlen unit : Z) : Z :=
   if (clen =? 0) || (clen =? containerLenNil) then 0
   else if clen <? 0 then (if unit =? 0 then 8 else Z.max (64 / unit) 8)
-  else if unit =? 0 then clen
-  else let maxlen := if maxlen =? 0 then 1048576 / unit else maxlen in Z.min clen maxlen.
+  else let maxlen := if maxlen =? 0 then 1048576 / Z.max unit 1 else maxlen in Z.min clen maxlen.
 
 (* decoderBase.maxInitLen(): uint(max(1024, d.h.MaxInitLen)) *)
 Definition maxInitLen (mil : Z) : Z := Z.max 1024 mil.
@@ -51,6 +53,8 @@ Section Alloc.
   Variable mil : Z.         (* MaxInitLen *)
   Variable U : Z.           (* largest element size (key + element for maps) inside the destination type *)
   Variable KL : Z.          (* bytes allocated per input byte by a leaf (copy of a string, boxing of a scalar) *)
+  Variable OV : Z.          (* bookkeeping bytes per pre-sized element besides the element itself (map buckets: tophash, overflow
+                               pointers): what makes a claimed length cost memory even when the elements are zero-size *)
 
   Definition cap : Z := maxInitLen mil.
   Definition G : Z := 4.    (* append growth: the slices allocated while growing to n elements hold < 4n elements in total *)
@@ -66,7 +70,7 @@ Section Alloc.
   Fixpoint alloc (r : run) : Z :=
     match r with
     | Leaf _ a => a
-    | Cont cl u _ ks _ => decInferLen cl cap u * u + G * u * count ks + allocs ks
+    | Cont cl u _ ks _ => decInferLen cl cap u * (u + OV) + G * (u + OV) * count ks + allocs ks
     end
   with allocs (rs : runs) : Z :=
     match rs with RNil => 0 | RCons r rs' => alloc r + allocs rs' end.
@@ -90,6 +94,6 @@ Section Alloc.
     | RCons r rs' => wf d r /\ wfs d rs' /\ (match rs' with RNil => True | _ => completeR r = true end)
     end.
 
-  Definition K1 : Z := KL + 64 + (9 + G) * U.
-  Definition K0 (d : Z) : Z := (md - d) * (cap * U).
+  Definition K1 : Z := KL + 64 + 64 * OV + (9 + G) * (U + OV).
+  Definition K0 (d : Z) : Z := (md - d) * (cap * (U + OV)).
 End Alloc.
